@@ -352,7 +352,9 @@ fn enum_def(out: &mut String, d: &Value, st: &mut Style) {
         let vattrs: Vec<String> = if v["dflt"].as_bool() == Some(true) { vec!["default".to_string()] } else { vec![] };
         attrs_with_docs(out, &v["doc"], &vattrs, st);
         out.push_str(s(&v["name"]));
-        if is_some(&v["val"]) {
+        if !s(&v["raw"]).is_empty() {
+            out.push_str(&format!("{}={}{}", st.ws(), st.ws(), s(&v["raw"])));
+        } else if is_some(&v["val"]) {
             out.push_str(&format!("{}={}{}", st.ws(), st.ws(), st.int(num(&v["val"]))));
         }
         if i + 1 < vars.len() || st.coin() || st.rng.is_none() {
